@@ -6,6 +6,7 @@ Each result is produced by props.<prop>.impl(case) and is canonical JSON.
 """
 import importlib
 import json
+import os
 import sys
 import traceback
 
@@ -26,6 +27,29 @@ def errkind(exc):
     if isinstance(exc, TypeError):
         return 'TypeError'
     return 'Other:' + name
+
+
+def broken_hook(exc):
+    """The harness reaches a few private helpers of the package (listed per property under
+    'trusted'). When such a helper is gone, renamed or has another signature the exception is raised
+    in a harness frame, not inside the package: that is a broken correspondence, not a failing input."""
+    tb = exc.__traceback__
+    last = None
+    while tb is not None:
+        last = tb
+        tb = tb.tb_next
+    if last is None:
+        return None
+    fn = last.tb_frame.f_code.co_filename
+    here = os.path.dirname(os.path.abspath(__file__))
+    if not os.path.abspath(fn).startswith(here):
+        return None
+    msg = str(exc)
+    if isinstance(exc, (AttributeError, ImportError, NameError)) and 'msmhelper' in (msg + repr(getattr(exc, 'obj', ''))):
+        return '%s: %s (%s:%d)' % (type(exc).__name__, msg[:160], os.path.basename(fn), last.tb_lineno)
+    if isinstance(exc, TypeError) and any(k in msg for k in ('positional argument', 'unexpected keyword', 'required positional', 'takes ')):
+        return '%s: %s (%s:%d)' % (type(exc).__name__, msg[:160], os.path.basename(fn), last.tb_lineno)
+    return None
 
 
 def main():
@@ -50,7 +74,11 @@ def main():
             except BaseException as exc:  # noqa
                 if isinstance(exc, (KeyboardInterrupt, SystemExit)):
                     raise
-                out.append({'err': errkind(exc), 'msg': str(exc)[:200]})
+                res = {'err': errkind(exc), 'msg': str(exc)[:200]}
+                hook = broken_hook(exc)
+                if hook:
+                    res['hook'] = hook
+                out.append(res)
             finally:
                 sys.stdout = real_stdout
         real_stdout.write(json.dumps(out) + '\n')
